@@ -6,11 +6,12 @@ cd "$(dirname "$0")/.."
 dirs=("$@"); [ ${#dirs[@]} -eq 0 ] && dirs=(seeded/C*)
 for d in "${dirs[@]}"; do
   id=$(basename $d); prop=${id:0:3}
-  r1=$(VERIF_NO_REPLAYS=1 tools/tryseed.sh $d/patch.diff $prop 2>&1)
+  patch=$d/patch.diff; [ -f $patch ] || patch=$d/patch.diff.gz
+  r1=$(VERIF_NO_REPLAYS=1 tools/tryseed.sh $patch $prop 2>&1)
   line=$(echo "$r1" | grep "^$prop quick")
   suite=$(echo "$r1" | grep "^suite" | grep -c FAIL)
   rc=$(echo "$line" | sed 's/.*exit=\([0-9]*\).*/\1/')
   if [ "$rc" = 1 ]; then echo "$id suite_fail=$suite search: $line"; echo "$r1" | grep "^    " | head -3; continue; fi
-  r2=$(tools/tryseed.sh $d/patch.diff $prop 2>&1 | grep "^$prop quick")
+  r2=$(tools/tryseed.sh $patch $prop 2>&1 | grep "^$prop quick")
   echo "$id suite_fail=$suite search: $line | with witnesses: $r2"
 done
